@@ -11,6 +11,10 @@ from ..report import Inconclusive
 from .index import u
 
 
+class ModelError(Exception):
+    """the evaluated expression raises on this model element (e.g. IndexError on an empty string)"""
+
+
 class Kind:
     """abstract value kind with the real class relations (np.float64 IS a float, np.complex128 IS a complex, np.int64 is NOT an int, bool IS an int)"""
 
@@ -113,11 +117,19 @@ class AEval:
             raise Inconclusive("guard evaluator: attribute `%s`" % u(e))
         if isinstance(e, ast.Subscript):
             base = self.ev(e.value)
+            if isinstance(e.slice, ast.Slice) and isinstance(base, (str, tuple)):
+                lo = self.ev(e.slice.lower) if e.slice.lower is not None else None
+                hi = self.ev(e.slice.upper) if e.slice.upper is not None else None
+                st = self.ev(e.slice.step) if e.slice.step is not None else None
+                return base[lo:hi:st]
             k = self.ev(e.slice)
             if isinstance(base, dict):
                 return base[k]
-            if isinstance(base, (tuple, list)) and isinstance(k, int):
-                return base[k]
+            if isinstance(base, (tuple, list, str)) and isinstance(k, int):
+                try:
+                    return base[k]
+                except IndexError:
+                    raise ModelError("IndexError")
         raise Inconclusive("guard evaluator: unsupported expression `%s`" % u(e))
 
     def truth(self, v):
@@ -193,6 +205,29 @@ class AEval:
             x = self.ev(args[0])
             if isinstance(x, Kind):
                 return ("TYPE", x)
+        if fn == "str" and len(args) == 1:
+            v = self.ev(args[0])
+            if isinstance(v, str):
+                return v
+        if isinstance(e.func, ast.Attribute) and short in ("isdigit", "isnumeric", "isdecimal", "startswith", "endswith", "isalpha", "isalnum", "lower", "upper", "strip") :
+            recv = self.ev(e.func.value)
+            if isinstance(recv, str):
+                return getattr(recv, short)(*[self.ev(a) for a in args])
+        if isinstance(e.func, ast.Attribute) and short in ("match", "fullmatch", "search"):
+            import re as _re
+            recv = self.ev(e.func.value) if not (isinstance(e.func.value, ast.Name) and e.func.value.id == "re") else "RE"
+            if recv == "RE" and len(args) >= 2:
+                pat, subj = self.ev(args[0]), self.ev(args[1])
+                if isinstance(pat, str) and isinstance(subj, str):
+                    return getattr(_re, short)(pat, subj)
+            if isinstance(recv, tuple) and recv and recv[0] == "PATTERN" and len(args) == 1:
+                subj = self.ev(args[0])
+                if isinstance(subj, str):
+                    return getattr(_re.compile(recv[1]), short)(subj)
+        if fn in ("re.compile",) and len(args) == 1:
+            pat = self.ev(args[0])
+            if isinstance(pat, str):
+                return ("PATTERN", pat)
         if isinstance(e.func, ast.Attribute):
             if short in ("issubset", "issuperset", "isdisjoint", "symmetric_difference", "union", "intersection", "difference") and len(args) == 1:
                 a = self.ev(e.func.value)
